@@ -389,10 +389,35 @@ int FUNC(verify)(jwt_common_t *__cmd, const char *token)
 	config.alg = __cmd->c.alg;
 	config.ctx = __cmd->c.cb_ctx;
 
-	/* Let the user handle this and update config */
-        if (__cmd->c.cb && __cmd->c.cb(jwt, &config)) {
-		jwt_write_error(__cmd, "User callback returned error");
-		return 1;
+	/* Let the user handle this and update config. The callback may look
+	 * at the token, but whatever it does to it must not influence the
+	 * checks that follow, so it works on the parsed objects while we
+	 * keep pristine copies to continue with. */
+	if (__cmd->c.cb) {
+		json_t *claims = json_deep_copy(jwt->claims);
+		json_t *headers = json_deep_copy(jwt->headers);
+		int cb_ret;
+
+		if (claims == NULL || headers == NULL) {
+			// LCOV_EXCL_START
+			json_decref(claims);
+			json_decref(headers);
+			jwt_write_error(__cmd, "Could not allocate JWT object");
+			return 1;
+			// LCOV_EXCL_STOP
+		}
+
+		cb_ret = __cmd->c.cb(jwt, &config);
+
+		json_decref(jwt->claims);
+		json_decref(jwt->headers);
+		jwt->claims = claims;
+		jwt->headers = headers;
+
+		if (cb_ret) {
+			jwt_write_error(__cmd, "User callback returned error");
+			return 1;
+		}
 	}
 
 	/* Callback may have changed this */
